@@ -97,7 +97,7 @@ def _case(dest, kind, overwrite, select, layout):
                 return rt.fail('C06:plain-restore-failed:' + label, 'exit=%r err=%r dst=%r' % (r['exit'], r['err'][-200:], dst_after))
             return rt.ok()
         # overwrite given and destination exists
-        if DEST[dest] in ('dir', 'empty-dir', 'link-dir'):
+        if DEST[dest] in ('dir', 'empty-dir'):
             # the property only promises replacement of NON-directories; for directories we demand
             # conservation: the trashed payload is either still in the trash or complete somewhere
             # under the destination, and the old content is not lost silently with exit 0 ... keep it
@@ -120,7 +120,7 @@ def w_main(dest: int, kind: int, overwrite: bool, select: int, layout: int) -> s
     pre: 0 <= dest < 7 and 0 <= kind < 6 and 0 <= select < 4 and 0 <= layout < 3
     post: _ == ''
     """
-    return _case(rt.sel(dest, 7), rt.sel(kind, 6), [False, True][overwrite], rt.sel(select, 4), rt.sel(layout, 3))
+    return _case(rt.sel(dest, 7), rt.sel(kind, 6), rt.selb(overwrite), rt.sel(select, 4), rt.sel(layout, 3))
 
 
 def obligations(tier):
